@@ -28,9 +28,11 @@ Section Machine.
   Variable merge_cn : cnkind -> cnkind -> Cc -> Cc -> Cc.
 
   Record inputs : Type := mkIn { i_kind : cnkind; i_pr : phase; i_sc : Sc; i_cn : Cc; i_hv : Hc }.
+  (* w_narrow = Some p: lock_phase replaced the PhaseHandles _H / _S by their .p functors (built for the
+     multi-phase chemical, reference phase i_pr w_in) and no rebuild followed *)
   Record chem : Type := mkC {
     c_kind : cnkind; c_pr : phase; c_sc : Sc; c_hv : Hc; c_cn : nat;
-    w_cn : nat; w_in : inputs }.
+    w_cn : nat; w_in : inputs; w_narrow : option phase }.
 
   Definition heap := list Cc.
   Definition hget (h : heap) (k : nat) : Cc := nth k h d0.
@@ -42,15 +44,25 @@ Section Machine.
 
   (* _init_energies(self._Cn, self._Hvap, ..., self._phase_ref, self._S0) *)
   Definition rewire (h : heap) (c : chem) : chem :=
-    mkC (c_kind c) (c_pr c) (c_sc c) (c_hv c) (c_cn c) (c_cn c) (current h c).
+    mkC (c_kind c) (c_pr c) (c_sc c) (c_hv c) (c_cn c) (c_cn c) (current h c) None.
   Definition rewire_if (b : bool) (h : heap) (c : chem) : chem := if b then rewire h c else c.
 
-  Definition set_sc (c : chem) (s : Sc) : chem := mkC (c_kind c) (c_pr c) s (c_hv c) (c_cn c) (w_cn c) (w_in c).
-  Definition set_hv (c : chem) (x : Hc) : chem := mkC (c_kind c) (c_pr c) (c_sc c) x (c_cn c) (w_cn c) (w_in c).
-  Definition set_pr (c : chem) (p : phase) : chem := mkC (c_kind c) p (c_sc c) (c_hv c) (c_cn c) (w_cn c) (w_in c).
-  Definition set_cn (c : chem) (k : nat) : chem := mkC (c_kind c) (c_pr c) (c_sc c) (c_hv c) k (w_cn c) (w_in c).
+  Definition set_sc (c : chem) (s : Sc) : chem := mkC (c_kind c) (c_pr c) s (c_hv c) (c_cn c) (w_cn c) (w_in c) (w_narrow c).
+  Definition set_hv (c : chem) (x : Hc) : chem := mkC (c_kind c) (c_pr c) (c_sc c) x (c_cn c) (w_cn c) (w_in c) (w_narrow c).
+  Definition set_pr (c : chem) (p : phase) : chem := mkC (c_kind c) p (c_sc c) (c_hv c) (c_cn c) (w_cn c) (w_in c) (w_narrow c).
+  Definition set_cn (c : chem) (k : nat) : chem := mkC (c_kind c) (c_pr c) (c_sc c) (c_hv c) k (w_cn c) (w_in c) (w_narrow c).
   Definition set_kind_pr (c : chem) (k : cnkind) (p : phase) : chem :=
-    mkC k p (c_sc c) (c_hv c) (c_cn c) (w_cn c) (w_in c).
+    mkC k p (c_sc c) (c_hv c) (c_cn c) (w_cn c) (w_in c) (w_narrow c).
+  (* lock_phase(chemical, ph): _Cn becomes the handle of that phase (same object), phase_ref and the locked state
+     become ph, and the energy PhaseHandles are narrowed to their .ph functors *)
+  Definition lock (c : chem) (ph : phase) : chem :=
+    mkC (CnLocked ph) ph (c_sc c) (c_hv c) (c_cn c) (w_cn c) (w_in c)
+        (match w_narrow c with Some q => Some q | None => Some ph end).
+  Definition at_state_on (flag : bool) (h : heap) (c : chem) (ph : phase) : chem :=
+    match c_kind c with
+    | CnHandle => rewire_if (at_state_rebuilds flag) h (lock c ph)
+    | _ => c      (* already locked: no-op for the same phase, TypeError otherwise *)
+    end.
 
   Inductive op : Type :=
   | OReset (i : nat)                               (* c.reset_free_energies() *)
@@ -59,6 +71,7 @@ Section Machine.
   | OMutHv (i : nat) (x : Hc)                      (* c.Hvap.add_method(...), then c.reset_free_energies() *)
   | OCopyModels (i j : nat) (names : list mname)   (* c_i.copy_models_from(c_j, names) *)
   | OAtState (i : nat) (ph : phase)                (* c.at_state(ph) *)
+  | OAtStateCopy (i : nat) (ph : phase)            (* store.append(c.at_state(ph, copy=True)) *)
   | OSetPr (i : nat) (p : phase)                   (* c.phase_ref = p *)
   | OSetSc (i : nat) (w : scalar_name) (f : Sc -> Sc).   (* c.Tm = v, c.Tb = v, c.Hfus = v, c.Sfus = v *)
 
@@ -96,12 +109,15 @@ Section Machine.
               (fst r, rewire_if (copy_models_rebuilds names) (fst r) (snd r)))
         | None => s
         end
-    | OAtState i ph =>
-        on_chem s i (fun h c =>
-          match c_kind c with
-          | CnHandle => (h, rewire_if (at_state_rebuilds true) h (set_kind_pr c (CnLocked ph) ph))
-          | _ => (h, c)      (* already locked: no-op for the same phase, TypeError otherwise *)
-          end)
+    | OAtState i ph => on_chem s i (fun h c => (h, at_state_on at_state_default_flag h c ph))
+    | OAtStateCopy i ph =>
+        match nth_error (snd s) i with
+        | Some a =>
+            let h' := fst s ++ [hget (fst s) (c_cn a)] in
+            let b := rewire_if copy_rebuilds_from_own h' (set_cn a (length (fst s))) in
+            (h', snd s ++ [at_state_on (at_state_copy_inner_flag at_state_default_flag) h' b ph])
+        | None => s
+        end
     | OSetPr i p => on_chem s i (fun h c => (h, rewire_if phase_ref_setter_rebuilds h (set_pr c p)))
     | OSetSc i w f => on_chem s i (fun h c => (h, rewire_if (setter_rewires w) h (set_sc c (f (c_sc c)))))
     end.
@@ -110,5 +126,5 @@ Section Machine.
 
   (* a freshly constructed chemical *)
   Definition fresh (h : heap) (k : cnkind) (p : phase) (sc : Sc) (hv : Hc) (addr : nat) : chem :=
-    rewire h (mkC k p sc hv addr addr (mkIn k p sc (hget h addr) hv)).
+    rewire h (mkC k p sc hv addr addr (mkIn k p sc (hget h addr) hv) None).
 End Machine.
